@@ -36,6 +36,8 @@ type Prog struct {
 	recTemplates map[string]*recTemplate
 	mu        sync.Mutex
 	derefDefs map[string]string // deref_<T> declarations + defining axioms
+	tupleTop  map[string]string   // "f h1 h2.." -> allocator top when f first read that heap version
+	recParams map[string][]recParam
 	nonlinearDef map[string]bool
 	sites        map[string][]interiorSite
 	structTypes  map[string]types.Type // named struct types of the repository
@@ -271,4 +273,10 @@ func (P *Prog) globalConst(g *ssa.Global) bool {
 	}
 	P.gconst[g] = res
 	return res
+}
+
+// recParam describes a non-heap parameter of an opaque/rec spec function for reads framing.
+type recParam struct {
+	sort string
+	ref  int // 0 plain value, 1 pointer (Int root), 2 slice, 3 value containing references (no framing)
 }
